@@ -21,7 +21,12 @@ const (
 
 // Age classes relative to the configured maximum (1h): the boundary itself is a wall-clock comparison inside the
 // engine, so ±30s margins are used instead of the instant.
-var ageShift = [...]time.Duration{0, time.Hour - 30*time.Second, time.Hour + 30*time.Second, 10 * time.Hour, 10 * time.Hour}
+var ageShift = [...]time.Duration{0, time.Hour - 30*time.Second, time.Hour + 30*time.Second, 10 * time.Hour, 10 * time.Hour, 10 * time.Hour}
+
+// AgeStartsOnly: every Start time (plan and all objects, attempts included) is shifted by 10*max, every End time
+// stays fresh: "long objects". The most recent recorded activity is the freshest End, so the plan must be resumed as
+// soon as one End time is durable.
+const AgeStartsOnly = 5
 
 // AgePlanRowOnly: only the plan object's own times are shifted (by 10*max); every other object keeps its fresh times,
 // so the plan's "most recent recorded activity" is fresh and it must be resumed.
@@ -41,6 +46,8 @@ type StoreCase struct {
 	Sc         Scenario
 	Plans      []StorePlan
 	NoRecovery bool
+	// FaultAt > 0: the FaultAt-th storage update of the first start-up fails (see RunStoreCase).
+	FaultAt int
 }
 
 func shiftState(s *workflow.State, d time.Duration) {
@@ -142,6 +149,22 @@ func RunStoreCase(c *StoreCase, res *vprop.Result) {
 		d := ageShift[age]
 		for _, w := range ws[:n] {
 			switch {
+			case age == AgeStartsOnly:
+				c := *w
+				if !c.State.Start.IsZero() {
+					c.State.Start = c.State.Start.Add(-d)
+				}
+				c.Attempts = CopyAttempts(w.Attempts)
+				for _, a := range c.Attempts {
+					if a != nil && !a.Start.IsZero() {
+						a.Start = a.Start.Add(-d)
+					}
+				}
+				if w.Create {
+					c.Plan = CopyPlan(w.Plan)
+					c.Plan.SubmitTime = c.Plan.SubmitTime.Add(-d)
+				}
+				kept = append(kept, &c)
 			case age != AgePlanRowOnly:
 				kept = append(kept, shiftWrite(w, d))
 			case w.Create:
@@ -160,13 +183,31 @@ func RunStoreCase(c *StoreCase, res *vprop.Result) {
 		if age == AgePlanRowOnly {
 			// fresh activity needs at least one durable write of an object other than the plan row; otherwise the plan
 			// row's (old) start is the most recent activity and the plan is legitimately stale
-			other := false
+			lastTimed := map[string]bool{}
 			for _, w := range ws[:n] {
-				if !w.Create && w.Tag != ptag && (!w.State.Start.IsZero() || !w.State.End.IsZero()) {
-					other = true
+				if !w.Create && w.Tag != ptag {
+					lastTimed[w.Tag] = !w.State.Start.IsZero() || !w.State.End.IsZero()
 				}
 			}
+			other := false
+			for _, v := range lastTimed {
+				other = other || v
+			}
 			stale = !other
+		}
+		if age == AgeStartsOnly {
+			// what counts is the durable state: the LAST write of each object (a later write may have cleared an End)
+			lastEnd := map[string]bool{}
+			for _, w := range ws[:n] {
+				if !w.Create {
+					lastEnd[w.Tag] = !w.State.End.IsZero()
+				}
+			}
+			anyEnd := false
+			for _, v := range lastEnd {
+				anyEnd = anyEnd || v
+			}
+			stale = !anyEnd
 		}
 		exp[pi] = expect{class: sp.Class, stale: stale, durable: snap.status(ptag)}
 	}
@@ -189,6 +230,58 @@ func RunStoreCase(c *StoreCase, res *vprop.Result) {
 	opts := []coercion.Option{coercion.WithMaxLastUpdate(MaxLastUpdate)}
 	if c.NoRecovery {
 		opts = append(opts, coercion.WithNoRecovery())
+	}
+	if c.FaultAt > 0 && !c.NoRecovery {
+		// write-fault variant: only when every Running plan is stale (then all writes of the first start-up are the
+		// closing writes, whose failure the engine survives); the FaultAt-th update of that start-up fails; a second,
+		// healthy start-up follows. Judged with the weak, fault-tolerant reading only: in the end no plan that is
+		// terminal holds anything Running, and no initially Running plan is left Running.
+		for _, e := range exp {
+			if e.durable == workflow.Running && !e.stale {
+				c.FaultAt = 0
+			}
+		}
+	}
+	if c.FaultAt > 0 && !c.NoRecovery {
+		res.Label("write-fault-while-closing-stale-plans")
+		rr1 := Run(sc, RunOpts{Vault: v, Reg: reg, Recover: true, Pristine: created, WSOptions: opts, FailWrite: c.FaultAt, KeepOpen: true})
+		if rr1.NewErr != nil {
+			res.Skip = true
+			return
+		}
+		rr2 := Run(sc, RunOpts{Vault: v, Reg: reg, Recover: true, Pristine: created, WSOptions: opts})
+		if rr2.NewErr != nil || rr2.Stalled {
+			res.Skip = true
+			return
+		}
+		for pi, pr := range rr2.Plans {
+			after := pr.Reread
+			if after == nil {
+				after = pr.Final
+			}
+			if after == nil {
+				continue
+			}
+			ptag := fmt.Sprintf("p%d", pi)
+			st := status(after.State)
+			if exp[pi].durable == workflow.Running && !finished(st) {
+				res.Fail("C11/fault:plan-left-running", "plan %s was Running and stale; after a start-up in which storage update %d failed and a second, healthy start-up it is %s", ptag, c.FaultAt, Describe(after))
+				return
+			}
+			if finished(st) {
+				bad := ""
+				eachState(after, func(tag string, s *workflow.State) {
+					if bad == "" && status(s) == workflow.Running {
+						bad = tag
+					}
+				})
+				if bad != "" {
+					res.Fail("C11/fault:closed-plan-left-running:"+kindOfTag(bad), "plan %s ended %v (reason %v) after a start-up in which storage update %d failed and a second, healthy start-up, but %s is still Running: %s", ptag, st, after.Reason, c.FaultAt, bad, Describe(after))
+					return
+				}
+			}
+		}
+		return
 	}
 	rr := Run(sc, RunOpts{Vault: v, Reg: reg, Recover: true, Pristine: created, WSOptions: opts})
 	if rr.NewErr != nil {
